@@ -14,6 +14,7 @@ import Comet.Driver.Conc
 import Comet.Driver.Store
 import Comet.Driver.Post
 import Comet.Driver.Codec
+import Comet.Driver.Lock
 namespace Comet.Driver
 
 def handlers : List Handler := [
@@ -32,7 +33,8 @@ def handlers : List Handler := [
   DistStream.handler,
   TrainStream.handler,
   StoreStream.handlerRestart, StoreStream.handlerStore, StoreStream.handlerCrash,
-  CodecStream.handler, CodecStream.truncHandler
+  CodecStream.handler, CodecStream.truncHandler,
+  LockStream.handler
 ]
 
 end Comet.Driver
